@@ -210,20 +210,23 @@ MANIFEST_NOTES = (
     "Family: contract-based deductive verification of the real code. Every claimed property is decided by a named set of "
     "component contracts (see evidence coverage.samples); compositions that neither Kani nor Verus can reach here "
     "(whole decoder automaton runs, the three compressor loops) are listed under coverage.not_covered / assumptions in "
-    "each evidence file and in DESIGN.md §4. Two genuine defects found by the checks were repaired in /repo with fix: "
-    "commits (known_findings.txt)."
+    "each evidence file and in DESIGN.md §4. Five genuine defects found by the checks were repaired in /repo with fix: "
+    "commits and one (MinReset keeps the window) is recorded as a known finding (known_findings.txt, DESIGN.md §5). "
+    "45 seeded property-breaking changes written by sub-agents that saw only the property text are kept under seeded/; "
+    "all 45 are reported as VIOLATION by the quick-tier check of their property (seeded/MATRIX.md, DESIGN.md §9)."
 )
 
 COMPOSITION_GAP_DEC = ("composition of the decoder's state-machine arms over a whole run, termination of the automaton, and the unbounded "
                        "inner loops (DecodeLitlen / decompress_fast) are NOT proved: neither Verus (break-with-value, closures) nor Kani "
                        "(25 min without result on 3 symbolic input bytes) can take decompress_with_limit whole")
-COMPOSITION_GAP_ENC = ("the three compressor loops (compress_normal / compress_fast / compress_stored), dynamic Huffman construction and block "
-                       "cutting are NOT proved as a whole: that the emitted token sequence expands to the input is assumed")
+COMPOSITION_GAP_ENC = ("the three compressor loops (compress_normal / compress_fast / compress_stored) are under contract on bounded instances only "
+                       "(K-fastcap, K-fasttail, K-findmatch, K-normal-early, K-normalstep, K-stored-compress); dynamic Huffman construction and block "
+                       "cutting are NOT proved: that the emitted token sequence expands to the input for arbitrary input is assumed")
 
 NOT_COVERED = {
     "C01": [COMPOSITION_GAP_ENC, COMPOSITION_GAP_DEC, "hence the round trip itself is not proved end to end; what is proved: every stored length/distance/literal re-decodes to itself through the real emission code against the RFC tables, level clamp, level 0 <=> stored route, fixed code == RFC"],
     "C02": [COMPOSITION_GAP_ENC, "callback (dyn FnMut) sink; decodability of the concatenated output (whole-history); the lazy-match hand-over is proved for one token decision at a concrete window position only (K-normal-early)"],
-    "C03": [COMPOSITION_GAP_DEC, "Huffman table construction (init_tree) for symbolic code-length sets: no tractable formulation found (DESIGN.md §3.1 note)"],
+    "C03": [COMPOSITION_GAP_DEC, "Huffman table construction (init_tree) for symbolic code-length sets: no tractable formulation found (DESIGN.md §10)"],
     "C04": [COMPOSITION_GAP_DEC, "init_tree over-subscription/incompleteness verdict for symbolic length sets", "'whenever decoding reports completion the consumed bytes form a valid stream' as a whole-run statement"],
     "C05": [COMPOSITION_GAP_DEC, "termination (no ranking function proved)"],
     "C06": [COMPOSITION_GAP_DEC, "the cross-call fact that the end-of-stream rewind is never clamped (history invariant)"],
